@@ -17,9 +17,16 @@ def main(tier, seed):
     jobs = []
     ns = names(tier)
     for n in ns:
-        for pol in (("fifo", "lifo") if tier == "quick" else ("explore",)):
-            jobs.append(("props.flow", "run_scenario", (n, dict(policy=pol, k=0, oracles=("c04",), max_paths=(600 if "needs2" in n else 200) if tier == "quick" else 4000,
-                                                                 answer_choice=(tier != "quick" or "needs2" in n), seed=seed), "C04")))
+        small = n.count(",") <= 1 or "needs2" in n or not n.startswith("c04:if")
+        for pol in (("fifo", "lifo") if tier == "quick" else ("explore", "fifo", "lifo")):
+            if tier == "quick":
+                cfg = dict(max_paths=600 if "needs2" in n else 200, answer_choice=("needs2" in n))
+            elif pol == "explore":
+                # every queue service order; the answer order is a decision only on the small shapes (it multiplies the paths by up to n!)
+                cfg = dict(max_paths=1500, answer_choice=small)
+            else:
+                cfg = dict(max_paths=600, answer_choice=True)
+            jobs.append(("props.flow", "run_scenario", (n, dict(cfg, policy=pol, k=0, oracles=("c04",), seed=seed), "C04")))
     c.run_jobs(jobs)
     return c.finish(
         rule="one path = generated workflow (branch kinds if/else/needs in every declaration order, conditional steps and acts, nesting) x feasible valuation class of the "
